@@ -170,6 +170,9 @@ def run(tier, seed, replay):
     from .common import run_native
     t0 = time.time()
     nat = run_native("cli_harness", {"op": "two_headers"}, timeout=300)
+    if nat.get("unreadable"):
+        chk.undecided.append(f"C14: the JSON report of {len(nat['unreadable'])} command-line run(s) could not be read by the harness "
+                             f"({nat['unreadable'][0][:120]}): nothing is concluded from them")
     chk.finite("cli.guard_of_each_header_is_judged_on_its_own", not nat["violations"], nat["cases"],
                {"violations": nat["violations"][:2]}, replay=None,
                what=f"include-guard validation depends on the other files of the run: {nat['violations'][:1]}", time_s=time.time() - t0)
